@@ -35,6 +35,9 @@ TOPO = {
     'quad1': ('MeshQuad1', [[0.0, 1.0, 1.15625, 0.09375], [0.0, 0.0625, 1.0, 0.875]], [[0], [1], [2], [3]]),
     'quad2': ('MeshQuad1', [[0.0, 1.0, 1.15625, 0.09375, 2.0625, 2.125], [0.0, 0.0625, 1.0, 0.875, -0.09375, 1.09375]],
               [[0, 1], [1, 4], [2, 5], [3, 2]]),
+    # an exactly affine cell (unit square) next to a trapezoid: Newton converges in one step on the first only
+    'quad2mix': ('MeshQuad1', [[0.0, 1.0, 1.0, 0.0, 2.25, 1.875], [0.0, 0.0, 1.0, 1.0, -0.125, 1.3125]],
+                 [[0, 1], [1, 4], [2, 5], [3, 2]]),
     'tet1': ('MeshTet1', [[0.0, 1.0, 0.125, 0.09375], [0.0, 0.0625, 1.0, 0.15625], [0.0, 0.03125, 0.09375, 1.0]],
              [[0], [1], [2], [3]]),
     'tet2': ('MeshTet1', [[0.0, 1.0, 0.125, 0.09375, 0.90625], [0.0, 0.0625, 1.0, 0.15625, 0.84375],
